@@ -94,11 +94,15 @@ def gadget_instances(tier):
         pr = [{"x": x, "c": c10} for x in range(0, xub + 1) for c10 in (0, 4, 8, 9, 10) if x * c10 <= ub10 and c10 <= cub10]
         insts.append({"gadget": "integer", "ub": ub10, "cub": cub10, "xub": xub, "den": 10, "probes": pr, "enumerate": False})
     pws = [([[0, 2], [3, 5]], [7, 9]), ([[0, 0], [1, 3], [4, 6]], [2, 0, 5]), ([[1, 2], [4, 6]], [3, 1]),
-           ([[0, 1], [2, 3]], [0, 40]), ([[0, 6]], [4]), ([[0, 1], [2, 2], [3, 6]], [1, 2, 3])]
+           ([[0, 1], [2, 3]], [0, 40]), ([[0, 6]], [4]), ([[0, 1], [2, 2], [3, 6]], [1, 2, 3]),
+           # a wide lowest range followed by narrow ones (and the other way round): the relaxation constant of the range rows has
+           # to span from the smallest lower end to the largest upper end
+           ([[0, 40], [41, 45], [46, 50]], [1, 2, 3]), ([[0, 100], [101, 110]], [2, 1]), ([[0, 20], [21, 22]], [5, 0]),
+           ([[0, 1], [2, 60]], [3, 1]), ([[5, 6], [7, 8], [9, 90]], [1, 0, 2])]
     for ranges, consts in pws:
         lo, hi = min(r[0] for r in ranges), max(r[1] for r in ranges)
         insts.append({"gadget": "piecewise", "ranges": ranges, "constants": consts,
-                      "probes": [{"x": x} for x in range(lo - 1, hi + 2)], "enumerate": max(consts) <= 12})
+                      "probes": [{"x": x} for x in range(lo - 1, hi + 2)], "enumerate": max(consts) <= 12 and hi <= 12})
     return insts
 
 
